@@ -411,6 +411,9 @@ package ast
 // the position an include is sorted by is its index among the parent's include statements: the table is filled while
 // walking the statements in declaration order, one entry per namespace (a search in that list is no substitute: the
 // list is in declaration order, not sorted)
+// ... and it is this edge's own table, made here for this walk (positions are counted by the size of the table: entries
+// left from another edge - the same parent met again, other files with like-named includes - would stop the count)
+//@   site (*Includes).Keys#0 requires fresh(order)                                                                   [C09]
 //@   nosite slices.BinarySearch                                                                                 [C09]
 //@   nosite slices.BinarySearchFunc                                                                             [C09]
 //@   nosite slices.Index                                                                                        [C09]
